@@ -271,6 +271,44 @@ fn lock_write_fmt_once_strip() {
     assert!(m.locks == 1, "one formatted write acquires the inner lock exactly once");
 }
 
+/// C08, formatted writes on a Never stream: the fragments the formatter emits reach the stream's OWN
+/// stripper as they are (in place), in order, starting from the stream's carried state and carrying
+/// the state from one fragment to the next — nothing is rendered aside and stripped separately.
+/// What the stripper then delivers is C06 (`stream_write_fmt_plumbing`).
+#[cfg_attr(kani, kani::proof, kani::unwind(8),
+    kani::stub(crate::adapter::strip::next_bytes, crate::adapter::verif_kani_strip_scan::next_bytes_recorder),
+    kani::stub(core::fmt::write, crate::verif_kani::fmt_stub::fmt_write_two_fragments))]
+#[cfg_attr(not(kani), test)]
+fn auto_routed_write_fmt() {
+    let mut s = AutoStream::never(CountMock::new());
+    let (f1, f2) = (crate::verif_kani::fmt_stub::FRAG1, crate::verif_kani::fmt_stub::FRAG2);
+    let r = s.write_fmt(format_args!("{f1}{f2}"));
+    assert!(r.is_ok(), "a formatted write succeeds on a good writer");
+    #[cfg(kani)]
+    {
+        use crate::adapter::verif_kani_strip_scan::{REC, REC_MAX, REC_N};
+        let n = unsafe { REC_N };
+        let c0 = unsafe { REC[0] };
+        assert!(n >= 2 && c0.in_ptr == f1.as_ptr() as usize && c0.in_len == 2 && c0.in_state == anstyle_parse::state::State::Ground,
+            "a formatted write to a Never stream hands the first fragment, as it is, to the stream's stripper in its carried state");
+        let mut seen_second = false;
+        let mut j = 1;
+        while j < REC_MAX {
+            if j < n {
+                let (c, p) = unsafe { (REC[j], REC[j - 1]) };
+                assert!(c.in_state == p.out_state, "the strip state is carried from one scanner call to the next across fragments");
+                if c.in_ptr == f2.as_ptr() as usize && c.in_len == 1 {
+                    seen_second = true;
+                }
+            }
+            j += 1;
+        }
+        assert!(seen_second, "the second fragment reaches the same stripper, as it is, after the first");
+    }
+    let m = s.into_inner();
+    assert!(m.locks == 1, "one formatted write acquires the inner lock exactly once");
+}
+
 // ---- C08, small pieces (the combined harnesses above exceed CBMC's reach: > 18 min, > 10 GB) ----
 
 macro_rules! dispatch_case {
